@@ -136,3 +136,43 @@ func waitOrTimeout(done <-chan struct{}, d time.Duration) bool {
 	i, _, _ := simrt.Select(false, simrt.RecvCase(done), simrt.RecvCase(tm.C))
 	return i == 0
 }
+
+// stubEnv is a real imapserver.Server whose sessions are harness stubs.
+type stubEnv struct {
+	r   *R
+	b   *stubBackend
+	srv *imapserver.Server
+	ln  *simnet.Listener
+	log *logBuf
+}
+
+func newStubEnv(r *R, b *stubBackend, opts *imapserver.Options) *stubEnv {
+	e := &stubEnv{r: r, b: b, log: &logBuf{}}
+	o := *opts
+	o.NewSession = b.NewSession
+	o.Logger = e.log
+	e.srv = imapserver.New(&o)
+	e.ln = r.Net.Listen()
+	simrt.GoNamed("server.Serve", func() { e.srv.Serve(e.ln) })
+	return e
+}
+
+func (e *stubEnv) Connect(name string) (cli, srv *simnet.Conn) {
+	c, s := e.r.Net.Pair(name, "srv-"+name)
+	e.ln.Push(s)
+	return c, s
+}
+
+// serverCaps returns the capability set variants used by the raw-peer checks.
+func serverCaps(variant int) imap.CapSet {
+	switch variant % 4 {
+	case 0:
+		return imap.CapSet{imap.CapIMAP4rev1: {}}
+	case 1:
+		return imap.CapSet{imap.CapIMAP4rev1: {}, imap.CapIMAP4rev2: {}}
+	case 2:
+		return imap.CapSet{imap.CapIMAP4rev2: {}}
+	default:
+		return imap.CapSet{imap.CapIMAP4rev1: {}, imap.CapLiteralPlus: {}, imap.CapMove: {}, imap.CapNamespace: {}, imap.CapUnauthenticate: {}}
+	}
+}
